@@ -253,6 +253,9 @@ type RunOptions struct {
 	InstrFault  int  `json:"instr_fault,omitempty"`
 	// Epilogue: after the chunk, the same state must have an empty stack and run a fixed program.
 	Epilogue bool `json:"epilogue,omitempty"`
+	// state configuration that survives the trip to a child process
+	MinimizeStack bool `json:"minimize_stack,omitempty"`
+	CallStackSize int  `json:"call_stack_size,omitempty"`
 }
 
 // oneShot is a context whose Done() is closed for exactly one poll.
@@ -285,6 +288,8 @@ func Run(src string, ro *RunOptions) (out *Outcome) {
 	var L *lua.LState
 	if ro != nil && ro.Options != nil {
 		L = lua.NewState(*ro.Options)
+	} else if ro != nil && (ro.MinimizeStack || ro.CallStackSize > 0) {
+		L = lua.NewState(lua.Options{MinimizeStackMemory: ro.MinimizeStack, CallStackSize: ro.CallStackSize})
 	} else {
 		L = lua.NewState()
 	}
